@@ -92,7 +92,8 @@ class CommonSubexpressionEliminationPass(ir.passes.InPlacePass):
                     np_value = value.numpy()
 
                     value = (np_value.shape, str(np_value.dtype), np_value.tobytes())
-                attributes[k] = value
+                # Include the attribute type: INT 1 and FLOAT 1.0 compare equal in Python
+                attributes[k] = (v.type, value)
 
             if control_flow_op:
                 # If the node is a control flow op, we skip it.
